@@ -19,7 +19,8 @@ import (
 // Deterministic witness cases (case index = position): each replays one confirmed finding on the
 // real code every run and reports it under a stable key (known_findings.json). The same worlds
 // are the `Neg` theorems of LinVerif/Props/C12.lean.
-var witnesses = []func(c *core.Ctx){witnessArrivalOrder, witnessMissingField, witnessLastField, witnessTwoFunctions, witnessReceiveOnly, witnessArrivalOrderL2, witnessMissingFieldL2}
+var witnesses = []func(c *core.Ctx){witnessArrivalOrder, witnessMissingField, witnessLastField, witnessTwoFunctions, witnessReceiveOnly, witnessArrivalOrderL2, witnessMissingFieldL2,
+	witnessErrorBeforeComplete, fixedNotFoundLast, fixedLimitSpread}
 
 func twoSeriesWorld(types ...field.Type) *World {
 	w := &World{TagKeys: []string{"host"}}
